@@ -466,6 +466,15 @@ func (e *ex) Do(op string) core.Result {
 				map[bool]string{true: "holds", false: "does not hold"}[want])}
 		}
 		return core.Result{Impl: b01(got), ModelOp: "cond " + f[1] + " " + c.token() + " " + f[3]}
+	case len(f) == 5 && f[0] == "race":
+		seed, err := strconv.ParseUint(f[1], 10, 64)
+		nb, err1 := strconv.Atoi(f[2])
+		nw, err2 := strconv.Atoi(f[3])
+		nr, err3 := strconv.Atoi(f[4])
+		if err != nil || err1 != nil || err2 != nil || err3 != nil || nb < 1 || nb > 64 || nw < 1 || nw > 16 || nr < 1 || nr > 5000 {
+			return core.Result{Impl: "bad-op"}
+		}
+		return e.race(seed, nb, nw, nr)
 	case len(f) == 3 && f[0] == "matchhost":
 		h, ok1 := core.Unhex(f[1])
 		p, ok2 := core.Unhex(f[2])
